@@ -338,12 +338,17 @@ def real_pool_phase(chk, D, names, refs):
                 if chk.tier == "quick" and mode == "as-it-comes" and not name.startswith(("reader", "chk2plt", "chef")):
                     continue
                 jobs.append((name, n, mode))
+            # workers that do not inherit the parent's memory (start method "spawn": the default outside Linux): what a worker
+            # needs has to reach it through its task
+            if not name.startswith("taste.bad") and (chk.tier != "quick" or name in ("whip", "colander.tail", "combine.byfile", "mandoline.plate",
+                                                                                     "pestle", "reader.select", "chk2plt")):
+                jobs.append((name, n, "spawn"))
 
     def one(job):
         name, n, mode = job
         cmd = [sys.executable, os.path.join(os.path.dirname(os.path.abspath(__file__)), "c12_real.py"), name, str(n), str(refs[(name, n)][1]), str(budget)]
-        if mode == "slow-handler":
-            cmd.append("slow-handler")
+        if mode in ("slow-handler", "spawn"):
+            cmd.append(mode)
         env = dict(os.environ)
         env["TMPDIR"] = chk.scratch
         try:
@@ -364,9 +369,9 @@ def real_pool_phase(chk, D, names, refs):
         v = None
         if rec.get("hang"):
             v = "%s with %d tasks does not come back with real process pools%s (nothing within %d s)" % (
-                name, n, " when the pool's task-handler thread is slower than its workers" if mode == "slow-handler" else "", budget)
+                name, n, " when the pool's task-handler thread is slower than its workers" if mode == "slow-handler" else (" started with 'spawn'" if mode == "spawn" else ""), budget)
         elif "exc" in rec:
-            v = "%s raised with real process pools: %s" % (name, rec["exc"])
+            v = "%s raised with real process pools%s: %s" % (name, " (workers started with 'spawn')" if mode == "spawn" else "", rec["exc"])
         else:
             # paths in error messages differ between processes (scratch directories): compare with the directory names removed
             a, b = _nopaths(ref), _nopaths(rec["res"])
